@@ -98,6 +98,13 @@ func (buf *BipBuffer) Commit(n int) []byte {
 	if toCommit > n {
 		toCommit = n
 	}
+	if toCommit <= 0 {
+		// Nothing was claimed (or nothing is committed): same as Commit(0). In
+		// particular an empty buffer must not be re-based at the stale claim.
+		buf.claimHead = 0
+		buf.claimTail = 0
+		return nil
+	}
 	var head, tail int
 	if buf.Committed() == 0 {
 		buf.head = buf.claimHead
